@@ -34,7 +34,8 @@ check("C16", "fault_enumeration",
       "declarations x fault in the 2nd/3rd x every truncation and token deletion, globally and template-locally: earlier "
       "declarations present and unchanged. A second model with two dynamic templates: labels quantifying over dynamic "
       "instances (forall/exists/sum, nested, one binder name over different templates, also in the later labels) under the "
-      "same single-token faults.",
+      "same single-token faults. "
+      "With a template-local fault the global declarations must be unchanged and no diagnostic may land outside the faulted block.",
       "Reference = the fault-free document parsed the same way (static analysis iff the faulted parse ran it). The faulted "
       "label's value and document-wide summary flags are masked.",
       "exhaustive fault enumeration (token positions x fault operators, all short token strings) with a differential oracle against the fault-free run",
@@ -53,7 +54,8 @@ check("C17", "exploration",
       "(variable, array element, nested); the features applied through `clock &` / `hybrid clock &` parameters of functions and templates "
       "bound to ordinary and hybrid clocks - each instantiated "
       "(explicitly and directly), uninstantiated, and in two declaration orders. Oracle: a method is reported supported only "
-      "if the generator's feature flag permits it; unused templates and declaration order do not change the verdict.",
+      "if the generator's feature flag permits it; unused templates and declaration order do not change the verdict. "
+      "Restricting invariants on urgent and committed locations.",
       "Only the statement's 'only if' direction and invariance clauses are demanded; variable-valued rates are not claimed "
       "(the suite's rate_expression.xml fixes that they keep symbolic analysis). Only accepted models count. Known finding: a non-hybrid "
       "clock bound to a hybrid clock reference (known_findings.txt).",
@@ -66,7 +68,8 @@ check("C18", "exploration",
       "int32_t and double, every compound operation again with operands that alias the receiver (its own bounds, the range itself), "
       "plus the same enumeration under UBSan for the overflow clause. For int8_t this is a complete "
       "decision of the property; for the wide types it is exhaustive over the grid only. "
-      "Element equality, && with an element and the named aliases are enumerated on all grids; grids for float, int16_t, int64_t and fractional double bounds.",
+      "Element equality, && with an element and the named aliases are enumerated on all grids; grids for float, int16_t, int64_t and fractional double bounds. "
+      "contains() and && are applied to every result, empty ones included.",
       "Trusts the reference semantics in harness/standalone_c18.cpp (set definitions evaluated in int/__int128) and "
       "gcc's UBSan. Cases whose true result leaves the element type are skipped, as the statement allows.",
       "bounded-exhaustive enumeration of all operand tuples on the real code (explicit reference model)",
@@ -81,7 +84,8 @@ check("C01", "model_checking",
       "observation point before end of input; then every single structural/byte fault and truncation of a kitchen-sink XML "
       "document and the repository models (buffer/fd/file), 35 growth families for recursion depth and time "
       "proportionality (CPU time, re-measured alone), a grid of token lengths around the lexer's 4000-byte limit in 16 position classes, and 1100+ documents with semantically invalid but syntactically clean declarations and labels (the builder's error branches; alone, in pairs, in four slots), every dynamic-template construct (4 quantifiers over instances x 7 kinds of template operand x 28 body shapes, spawn/exit/numOf x 21 operand shapes, in labels, function bodies and queries) and 55 more searches with a dynamic template in scope; initialiser lists of up to 3/4 elements for records and arrays; 396 synchronisation x guard x controllability x invariant combinations; 2488 ill-typed queries (every query form with one operand or the bound of the wrong kind); 12000+ whole texts through the pretty-printing back end. Oracle: returns or throws std::exception, no sanitizer/assertion report, process alive, in time. "
-      "Chains of 1-3 (partial) instantiations (every own-parameter list x every argument list, XML and XTA) are part of the semantic corpus.",
+      "Chains of 1-3 (partial) instantiations (every own-parameter list x every argument list, XML and XTA) are part of the semantic corpus. "
+      "Queries that select a member on 49 kinds of operand (operators, calls, quantifiers over processes, records, channels).",
       "No hand model: every transition is an execution of the implementation (traces_validated_against_impl = runs). Pruning "
       "is sound if the digest covers what later callbacks read (DESIGN.md §3/C01); 'shape'-digest runs are heuristic. Bounded: "
       "token strings up to the depth from the listed seeds/alphabets; single (thorough: sampled pairs of) XML faults.",
@@ -96,7 +100,8 @@ check("C02", "exploration",
       "symbols, constants); every depth-1 tree also in 12 positions of control statements (conditions, for-init/step, return, assert, "
       "inner statements) next to 11 bodies with declarations. Literal boundary grid: integers exact or diagnosed, floats bit-equal to the correctly rounded "
       "double. Exhaustive within the stated tree shapes. "
-      "Postfix chains on process sets: every argument tuple over 6 expressions for sets of arity 1-3 x 4 member forms (1 032 query trees).",
+      "Postfix chains on process sets: every argument tuple over 6 expressions for sets of arity 1-3 x 4 member forms (1 032 query trees). "
+      "String literal trees: all ordered pairs of 8 strings (prefixes of one another included), alone and after other strings.",
       "Trusts the reference operator table R1 (lib/exprgen.py), the harness s-expression renderer and Python float() as "
       "correctly rounded reference. Small scope: depth <= 3, one representative per operator class.",
       "bounded-exhaustive tree enumeration on the real parser against a reference operator table (render/parse round trip)",
@@ -107,7 +112,8 @@ check("C03", "exploration",
       "diagnostics), a grid of double/int literals, 28 string literals (text that reads as a declared name / number / operator, characters "
       "outside ASCII, backslashes and escaped quotes) as arguments in five expression shapes, and 59 query forms x boolean/numeric operand pools are printed with the "
       "library's str(), re-parsed by the same parser in the same scope and compared: no throw, no diagnostics, identical "
-      "tree (kinds, order, symbols, constants bit-exact), identical query kind, identical second str().",
+      "tree (kinds, order, symbols, constants bit-exact), identical query kind, identical second str(). "
+      "Binders over 7 named and anonymous types x 7 bodies as expressions and queries.",
       "The text of a control-synthesis query is taken to be the prefix recorded in PropInfo::type plus str(intermediate), as "
       "TigaPropertyBuilder strips the wrapper on purpose. Trusts the harness s-expression as tree identity. Small scope: the "
       "tree shapes and operand pools listed in the evidence.",
@@ -134,7 +140,8 @@ check("C05", "exploration",
       "model; plus four faults injected at the same site in both renderings (rejected twins); plus 21 constructs beyond the "
       "abstract model as verbatim text in both renderings (scalar sets, records, functions with every statement kind, channel "
       "priorities, before/after update, template-local types, system-section declarations, progress measures, gantt charts), "
-      "alone and in all ordered pairs, which must also be present in the documents.",
+      "alone and in all ordered pairs, which must also be present in the documents. "
+      "Name clashes (templates named like templates, variables, types, constants; globals declared twice) are among the injected faults.",
       "Trusts the two renderers in lib/modelgen.py to express the same model; edge_t::actname ignored.",
       "choice-tree DFS with deviation bound, differential oracle between the two front ends of the real code",
       "DESIGN.md §3/C05")
@@ -147,7 +154,8 @@ check("C06", "fault_enumeration",
       "against an independent DOM of the same bytes: XPath selects exactly one element, lines within the element's text, "
       "columns within the line, start not after end; an error lies in the faulted block (only there for non-declaring "
       "labels); an unknown identifier is covered exactly. "
-      "Type-checker diagnostics: 57 semantically wrong declarations (global / local, three leads) and 18 semantically wrong system sections - every diagnostic inside its block.",
+      "Type-checker diagnostics: 57 semantically wrong declarations (global / local, three leads) and 18 semantically wrong system sections - every diagnostic inside its block. "
+      "14 type-checker-only faults in declarations of every type shape must each be diagnosed inside their block.",
       "ElementTree is the independent DOM. An edit of a declaring block that leaves it valid (renamed declaration etc.) "
       "legitimately surfaces at the uses; 'an error inside the block' is then not demanded.",
       "exhaustive single-fault enumeration (every token position x fault kind x layout) on the real code, independent-DOM oracle",
@@ -160,7 +168,8 @@ check("C07", "exploration",
       "scope, labels with and without select binder, invariant, another template, system section, a later declaration) and 4 "
       "queries (v, P.v, P.w with argument substitution, T2.v). The declaration each use is bound to is read from the real "
       "document and compared with a reference lexical resolver; unknown uses must be diagnosed, one diagnostic each. Error-recovery histories: the same use sites after each of 12 erroneous declarations (missing return, unknown names, syntax errors in statements / nested blocks / quantifiers / iterations / parameter lists / initialisers, duplicates) that declare the name in scopes of their own, at three positions; declarations after a syntactically well-formed erroneous one must stay where they were declared. Use sites inside types (array sizes, range bounds, 7 positions), statements starting with the name after unbraced constructs, two processes of one template in one query. Members of dynamic instances: 16 subsets of {global, enclosing template, two dynamic templates} x 10 labels (member of the bound instance, bare names in and after the body, nested binders of one name, a binder named like the variable, a failed member lookup followed by a bare name) + 2 SMC queries. "
-      "Extent of binder scopes: forall / exists / sum with 13-16 unparenthesised bodies in guards, invariants, updates, functions and queries.",
+      "Extent of binder scopes: forall / exists / sum with 13-16 unparenthesised bodies in guards, invariants, updates, functions and queries. "
+      "Disturbances include syntax errors from which the grammar recovers around a quantifier.",
       "The bound declaration is identified through the upper bound of the symbol's declared range. Parameter+local of the "
       "same name share a frame (duplicate definition) and are excluded.",
       "bounded-exhaustive enumeration of declaration subsets x use sites on the real parser against a reference scope resolver",
@@ -185,7 +194,8 @@ check("C10", "exploration",
       "placed as guard (plain edge, edge into / out of a branchpoint, edge with select and synchronisation) and as invariant "
       "(ordinary, urgent, committed location, second template), and with the label written as a CDATA section, is type "
       "checked by the real library and compared with a reference convexity classifier transcribed from the statement; "
-      "a plain conjunction of atoms that are accepted alone must be accepted. Exhaustive within the stated alphabet/depth.",
+      "a plain conjunction of atoms that are accepted alone must be accepted. Exhaustive within the stated alphabet/depth. "
+      "Placements include unused templates and spawned dynamic templates.",
       "Trusts the reference classifier R4 in checks/c10.py and the small-scope hypothesis (depth <= 3, 3 (quick) / 6 (thorough) "
       "atom kinds).",
       "bounded-exhaustive enumeration of all formula trees on the real code against a reference classifier",
@@ -205,7 +215,8 @@ check("C11", "exploration",
       "functions through a process or an element of a process set (7 writers, 3 readers, 9 query forms); the writing expression in the "
       "initialiser, every size and the range bound of a variable of every declared-type shape (0-3 dimensions cut into typedef groups, "
       "const / meta prefixes, four bases, three scopes: 1041 places x 8 write forms quick, 1218 x 54 thorough). "
-      "Arguments of partial instances and of partial instances of partial instances are contexts too.",
+      "Arguments of partial instances and of partial instances of partial instances are contexts too. "
+      "Function-local initialisers and sizes, also in blocks, loop bodies and branches that consist of declarations only.",
       "Twins in compile-time contexts read constants only. Progress measures are not in the statement's list and are not "
       "enumerated. Small scope: chains <= 3, one representative per statement form.",
       "bounded-exhaustive matrix enumeration on the real type checker with a twin (differential) oracle",
@@ -221,7 +232,8 @@ check("C12", "exploration",
       "access path x 8 write forms x {update, function body, reference parameter of the composite type}. Dynamic templates with "
       "const / reference parameters and spawn arguments; 14 shapes of a constant reaching a written reference parameter through the "
       "own parameters of one and two partial instances; constants whose initialiser or size contains a quantifier. "
-      "Record types written out in place (`const struct { .. } s`) are among the type shapes.",
+      "Record types written out in place (`const struct { .. } s`) are among the type shapes. "
+      "Writes as arguments of built-in functions: every function x argument position x 4 write forms.",
       "Quantifier binders have no accepted twin. Small scope: listed shapes/forms.",
       "bounded-exhaustive matrix enumeration on the real type checker with a twin (differential) oracle",
       "DESIGN.md §3/C12")
@@ -238,7 +250,8 @@ check("C13", "exploration",
       "through template-local constant arrays / records / arrays of records x 4 sinks, and 14 functions that read the variable in exactly one "
       "syntactic position; a named type declared a second time (8 scope pairs and same-scope pairs of different names x 6 kinds x 3 uses x "
       "8 expressions, either order); mutable cell must be rejected, constant twin accepted. "
-      "Contexts on LSC templates (arguments, partial instances, own-parameter ranges) and arguments of partial instances of partial instances.",
+      "Contexts on LSC templates (arguments, partial instances, own-parameter ranges) and arguments of partial instances of partial instances. "
+      "Forwarded own parameters of partial instances (references to variables, constants, two levels).",
       "Every declared type is used. Function-local initialisers are outside the statement. Small scope: chains <= 3.",
       "bounded-exhaustive matrix enumeration on the real type checker with a twin (differential) oracle",
       "DESIGN.md §3/C13")
@@ -260,7 +273,7 @@ check("C15", "model_checking",
       "transition = one more call of a public entry point, executed in a process forked from that state. 33 events (XML by "
       "buffer/fd, XTA by buffer/FILE*, queries by buffer/FILE*, bare blocks; accepted, diagnosed, throwing XMLReaderError / "
       "XMLDocError / runtime_error / TypeException from inside the grammar, unterminated comments, 3.x syntax, a client builder "
-      "aborting inside a comment / an array declarator / a label, literals that leave errno set). All histories of length <= 2 (quick) / 3 (thorough) from "
+      "aborting inside a comment / an array declarator / a label, literals that leave errno set, models accepted with every kind of warning). All histories of length <= 2 (quick) / 3 (thorough) from "
       "five counter seeds without pruning, then BFS to depth 3 / 6 merging histories that leave identical global state, then "
       "every alignment of the 32-bit position counter relative to 2^31 and 2^32 for every event, then all histories of length <= 3 / 4 over 18 "
       "events on documents that stay alive between calls (queries and expression blocks against three kept documents, replacing and dropping "
@@ -287,7 +300,8 @@ check("C09", "exploration",
       "redundant pair of parentheses around every node of every depth-2 expression tree of the C02 enumeration. One name declared "
       "in two scopes: 7 kinds of declaration x every pair of {global, two templates, function body} x every pair of well-formed / "
       "ill-formed spellings x renaming either declaration alone (522 pairs of models). Models of the 3.x syntax (XTA and XML): the word "
-      "operators and / or / not / imply at every slot of 10 texts against their symbolic forms.",
+      "operators and / or / not / imply at every slot of 10 texts against their symbolic forms. "
+      "White space around the identifier of every <name> element; rejected variants with refused template / location names.",
       "Trusts lib/exprgen.py to render the same tree with extra parentheses / alias spellings. sup, inf, bounds, simulation are "
       "not used for template/location names (the XML reader deliberately refuses keywords there). Newlines are not inserted "
       "into queries (they separate queries). Small scope: the base models of checks/c09.py, one rewrite at a time.",
